@@ -230,7 +230,7 @@ def make_cases(seed: int, tier: str, n_cases: int | None = None) -> list[dict]:
         options["docstyle"] = style
         sigma = engine.sample_sigma(rng(cs, "sched"), ["hashseed", "enum", "obj"])
         c_step = {"sigma": sigma, "job_extra": {"kind": "C", "c_kind": "docstring", "options": options, "history_seed": H(cs, "hist") % (2**31),
-                                                "n_histories": 14 if tier == "quick" else 40, "history_len": 200 if tier == "quick" else 300}}
+                                                "n_histories": 16 if tier == "quick" else 40, "history_len": 200 if tier == "quick" else 300}}
         cases.append({"index": idx, "case_seed": cs, "verif_seed": seed, "pkg": pkg, "options": options,
                       "histories": [[c_step], [{"sigma": sigma}]]})
     return cases
